@@ -207,7 +207,9 @@ def tlc_expect_ok(r, what):
 # Known findings
 
 def known_findings(prop=None):
-    with open(os.path.join(VERIF, "known_findings.json")) as fh:
+    # VERIF_KNOWN_FINDINGS: testing aid only (e.g. to confirm that a candidate repair in a scratch worktree makes a
+    # check pass with the finding no longer listed); registered commands never set it.
+    with open(os.environ.get("VERIF_KNOWN_FINDINGS") or os.path.join(VERIF, "known_findings.json")) as fh:
         kf = json.load(fh)
     out = []
     for f in kf.get("findings", []):
